@@ -681,6 +681,53 @@ fn main() {
     g.insert("inference-shape", (n, n));
     evaluated.fetch_add(n, Ordering::Relaxed);
   }
+  // ---- generated ill-typed families: interface conformance, visibility across modules, arity ----
+  let mut gen_cases: Vec<vcore::illtyped::Ill> = vcore::illtyped::conformance();
+  gen_cases.extend(vcore::illtyped::visibility());
+  for a in vcore::illtyped::arity() {
+    if !a.well_typed {
+      gen_cases.push(vcore::illtyped::Ill { kind: "call-arity-or-argument-type", what: a.what, modules: vec![("Main".into(), a.text)], target: "Main".into() });
+    }
+  }
+  let gen_checked = AtomicU64::new(0);
+  gen_cases.par_iter().for_each(|g| {
+    gen_checked.fetch_add(1, Ordering::Relaxed);
+    let payload = || json!({"kind": g.kind, "site": g.what, "modules": g.modules});
+    let r = guarded(|| {
+      let mut heap = Heap::new();
+      let mut handles = HashMap::new();
+      for (m, t) in &g.modules {
+        handles.insert(vcore::exec::module_ref(&mut heap, m), t.clone());
+      }
+      let me = vcore::exec::module_ref(&mut heap, &g.target);
+      let mut es = ErrorSet::new();
+      let mut parsed = HashMap::new();
+      for (m, t) in &handles {
+        parsed.insert(*m, samlang_parser::parse_source_module_from_text(t, *m, &mut heap, &mut es));
+      }
+      let syntax = es.has_errors();
+      let _ = samlang_checker::type_check_sources(&parsed, &mut es);
+      let n = es.errors().iter().filter(|e| e.location.module_reference == me).count();
+      let compiled = samlang_compiler::compile_sources(&mut heap, handles, vec![me], false).is_ok();
+      (syntax, n, compiled)
+    });
+    match r {
+      Err(p) => run.violation(&format!("panic:{}:{p}", g.kind), &format!("front end panicked on {}: {p}", g.what), payload()),
+      Ok((true, _, _)) => machinery_failure(&format!("generated program has syntax errors: {}", g.what)),
+      Ok((_, 0, _)) => run.violation(&format!("accepted:{}:{}", g.kind, g.what.split('`').next().unwrap_or("").trim()), &format!("{} is accepted without any error in module {}", g.what, g.target), payload()),
+      Ok((_, _, true)) => run.violation(&format!("compiled:{}", g.kind), &format!("{}: compile_sources emitted code", g.what), payload()),
+      Ok(_) => {}
+    }
+  });
+  {
+    let mut g = per_kind.lock().unwrap();
+    for c in &gen_cases {
+      let e = g.entry(c.kind).or_insert((0, 0));
+      e.0 += 1;
+      e.1 += 1;
+    }
+    evaluated.fetch_add(gen_cases.len() as u64, Ordering::Relaxed);
+  }
   let kinds = per_kind.lock().unwrap().clone();
   let pool = sample_pool.lock().unwrap().clone();
   let n_sites = distinct_sites.lock().unwrap().len();
@@ -693,6 +740,7 @@ fn main() {
       "modules_mutated": modules.len(),
       "mutants_and_caught_per_fault_kind": kinds.iter().map(|(k, (a, b))| (k.to_string(), json!([a, b]))).collect::<BTreeMap<_, _>>(),
       "full_pipeline_compile_checks": full_compiles.load(Ordering::Relaxed),
+      "generated_ill_typed_programs": {"count": gen_checked.load(Ordering::Relaxed), "families": "interface conformance (3 class kinds x missing method named m/init, missing function, 4 wrong implementations), visibility (10 uses of private classes/members from another module + same-named class), call arity (9 callee kinds x 0..4 arguments x 6 kinds of last argument, all but the well-typed ones)"},
       "inference_shapes": {"trees_with_wrong_leaf_checked": shapes_checked.load(Ordering::Relaxed), "contexts": shape_contexts.len(), "max_internal_nodes_all_contexts": max_internal, "internal_nodes_first_two_contexts": deep_internal, "well_typed_twin_rejected_too": shapes_vacuous.load(Ordering::Relaxed),
         "grammar": "E ::= Option.None() | Option.Some(1) | Option.Some(\"oops\") | Main.id(E) | { let z<depth> = 1; E } | Main.app(() -> E) | if c {E} else {E} | match o {None -> E, Some(_) -> E} | Main.first(E, E)"},
       "exhaustive": true,
